@@ -69,6 +69,9 @@ def main():
         open(sys.argv[2], "w").write(json.dumps(out))
         return
     target_objs = None
+    # the options object of the target compilation exists from the start: "compile-shared" steps pass the very same object to an
+    # earlier compilation (an API caller reusing one options dictionary)
+    shared_opts = ffcx.options.get_options(dict(job.get("options") or {}))
     if job.get("family", "first") == "first":
         target_objs = build_all(job["target"])
     for step in job.get("steps", []):
@@ -82,6 +85,14 @@ def main():
             try:
                 ffcx.compiler.compile_ufl_objects(o, options=ffcx.options.get_options(dict(step[2] or {})), namespace="other")
             except BaseException as e:  # noqa: BLE001 - a failed earlier compilation is also a history (UFL raises BaseException subclasses)
+                if isinstance(e, (KeyboardInterrupt, SystemExit)):
+                    raise
+                out.setdefault("step_errors", []).append(f"{type(e).__name__}: {e}"[:200])
+        elif step[0] == "compile-shared":
+            o = build_all([step[1]])
+            try:
+                ffcx.compiler.compile_ufl_objects(o, options=shared_opts, namespace="other")
+            except BaseException as e:  # noqa: BLE001
                 if isinstance(e, (KeyboardInterrupt, SystemExit)):
                     raise
                 out.setdefault("step_errors", []).append(f"{type(e).__name__}: {e}"[:200])
@@ -99,7 +110,7 @@ def main():
             ffcx.options.get_options(dict(step[1]))
     if target_objs is None:
         target_objs = build_all(job["target"])
-    opts = ffcx.options.get_options(dict(job.get("options") or {}))
+    opts = shared_opts if any(st_[0] == "compile-shared" for st_ in job.get("steps", [])) else ffcx.options.get_options(dict(job.get("options") or {}))
     if job.get("mode", "codegen") == "codegen":
         try:
             code, suffixes = ffcx.compiler.compile_ufl_objects(target_objs, options=opts, namespace=job.get("namespace", "ns"))
